@@ -49,6 +49,10 @@ fn hscn(name: &str, yml: &str, keep: bool, cfg: HistCfg, bound: Option<usize>, s
     }
 }
 
+pub fn hscn_pub(name: &str, yml: &str, keep: bool, cfg: HistCfg, bound: Option<usize>, shards: usize) -> HScn {
+    hscn(name, yml, keep, cfg, bound, shards)
+}
+
 fn full_cfg(max_ops: usize) -> HistCfg {
     HistCfg {
         max_ops,
@@ -94,16 +98,25 @@ fn scenarios_of(prop: &str, tier: Tier) -> Vec<HScn> {
             }
         }
         "C03" => {
-            for y in [W2, W4, W2N, W2B] {
-                for keep in [false, true] {
-                    let mut c = full_cfg(2);
-                    c.terminal_targets = keep;
-                    v.push(hscn("par", y, keep, c, Some(1), 48));
-                    if !q {
-                        let mut c = full_cfg(3);
-                        c.terminal_targets = false;
-                        v.push(hscn("par", y, keep, c, Some(1), 48));
-                    }
+            // (workflow, keep_processes, deviation bound in the quick tier)
+            let set: [(&str, bool, usize); 8] = [
+                (W2, false, 1),
+                (W4, false, 1),
+                (W2N, false, 0),
+                (W2B, false, 0),
+                (W2, true, 0),
+                (W4, true, 0),
+                (W2N, true, 0),
+                (W2B, true, 0),
+            ];
+            for (y, keep, dq) in set {
+                let mut c = full_cfg(2);
+                c.terminal_targets = keep;
+                v.push(hscn("par", y, keep, c, Some(if q { dq } else { 1 }), 48));
+                if !q {
+                    let mut c = full_cfg(3);
+                    c.terminal_targets = false;
+                    v.push(hscn("par", y, keep, c, Some(if keep { 0 } else { 1 }), 48));
                 }
             }
             if !q {
